@@ -26,7 +26,7 @@ RULE = ("Hypothesis rule-based state machine over one simulated node and a harne
         "k in 0..2890 x dt around each threshold with the REAL constants (exhaustive). non-trivial = machine with >= 1 failed "
         "attempt followed by a retry, >= 1 greeting and >= 1 duplicate key; grid points are distinct by construction.")
 ASSUMPTIONS = ["simnet transport model; the harness plays the remote endpoints", "MAX_CONNECTION_ATTEMPTS patched to 3 in two thirds of the machines (the real constant is covered by the grid)"]
-MIN_NONTRIVIAL = {"quick": 20_000, "thorough": 40_000}
+MIN_NONTRIVIAL = {"quick": 20_000, "thorough": 26_000}
 
 
 def shards(tier):
